@@ -124,6 +124,13 @@ pub fn k_body(SQ: usize, KIND: u8, WHITE: bool, G: u8) {
     let content = spec::code(KIND, !WHITE);
     let sym = any_game_with(SQ, content, WHITE, 2);
     let p = sym.p;
+    if KIND == spec::KING {
+        // part of "the side not to move is not in check": the kings never stand next to each other
+        let ek = spec::king_square(&p.board, !WHITE);
+        let dr = spec::row(ek) - spec::row(SQ);
+        let dc = spec::col(ek) - spec::col(SQ);
+        kani::assume(dr > 1 || dr < -1 || dc > 1 || dc < -1);
+    }
     let game = &sym.game;
     let piece = code_piece(content).unwrap();
     let tables = tables(sym.endgame);
